@@ -37,6 +37,9 @@ type c15Case struct {
 	// (ending inside a telnet command) and hangs up; the opening under test follows on a new
 	// connection and must be handled as on a fresh object
 	Pre []int `json:"pre,omitempty"`
+	// ReadN: size asked of every Read (0 = 8192); smaller than the data collected while opening in a
+	// third of the cases
+	ReadN int `json:"read_n,omitempty"`
 }
 
 func genC15(r *sim.Rng) *c15Case {
@@ -59,6 +62,9 @@ func genC15(r *sim.Rng) *c15Case {
 				bi++
 			}
 		}
+	}
+	if r.Chance(1, 3) {
+		c.ReadN = []int{1, 3, 16}[r.Intn(3)]
 	}
 	if r.Chance(1, 4) {
 		c.Pre = [][]int{{255}, {255, 251}, {255, 253}, {255, 253, 3, 255}, {104, 105, 255, 254}, {255, 252}}[r.Intn(6)]
@@ -198,10 +204,14 @@ func runC15Case(id string, c *c15Case) {
 	}
 	// first reads: collect what is available within a short window
 	var data []byte
-	got := make(chan []byte, 4)
+	got := make(chan []byte, 400)
 	go func() {
-		for i := 0; i < 4; i++ {
-			b, err := tt.Read(8192)
+		readN, maxReads := 8192, 4
+		if c.ReadN > 0 {
+			readN, maxReads = c.ReadN, 400
+		}
+		for i := 0; i < maxReads; i++ {
+			b, err := tt.Read(readN)
 			if err != nil {
 				close(got)
 				return
